@@ -1,6 +1,8 @@
 package rules
 
 import (
+	"strings"
+
 	"go/ast"
 	"go/token"
 	"go/types"
@@ -110,6 +112,23 @@ func c03with(s *c03scope, fn func()) {
 func (s *c03scope) inline() func(*ast.CallExpr, *types.Func) *flow.Func {
 	decl := map[types.Object]*flow.Func{}
 	for _, g := range s.fns[1:] {
+		if fd, ok := g.Node.(*ast.FuncDecl); ok {
+			decl[g.Info.Defs[fd.Name]] = g
+		}
+	}
+	return func(call *ast.CallExpr, callee *types.Func) *flow.Func {
+		if callee == nil {
+			return nil
+		}
+		return decl[callee.Origin()]
+	}
+}
+
+// inlineAll is inline including the root of the scope when it is a declaration (a deferred
+// method of the analysed function).
+func (s *c03scope) inlineAll() func(*ast.CallExpr, *types.Func) *flow.Func {
+	decl := map[types.Object]*flow.Func{}
+	for _, g := range s.fns {
 		if fd, ok := g.Node.(*ast.FuncDecl); ok {
 			decl[g.Info.Defs[fd.Name]] = g
 		}
@@ -431,4 +450,10 @@ func c03hostNameFlag(c *core.Ctx) *types.Var {
 		return nil
 	}
 	return found[0]
+}
+
+// c03trackEmptiness is a flow.Config.Track that learns only the facts a guard around a loop
+// establishes about the emptiness of a collection (len(x) == 0, 0 < len(x), x == nil).
+func c03trackEmptiness(key string) bool {
+	return strings.Contains(key, "len(") || strings.HasPrefix(key, "nil:")
 }
